@@ -48,6 +48,10 @@ extern int mpt_cfloat(float *val, const char *src, const float range[2])
 	if (errno == ERANGE && (tmp == HUGE_VALF || tmp == -HUGE_VALF)) {
 		return MPT_ERROR(BadValue);
 	}
+	/* non-zero number below value range (result is zero) */
+	if (errno == ERANGE && tmp == 0) {
+		return MPT_ERROR(BadValue);
+	}
 	if (range && (range[0] > tmp || tmp > range[1])) {
 		return MPT_ERROR(BadValue);
 	}
